@@ -88,7 +88,7 @@ static int select_bcurve(long cid) {
 #define REP_AFF 0
 #define REP_LD 1
 static void eb_inject(eb_t e, bpt p, int rep, uint64_t lam) {
-	if (p.inf) { eb_set_infty(e); return; }
+	if (p.inf) { eb_set_infty(e); if (rep == REP_LD) e->coord = PROJC; return; }
 	if (rep == REP_AFF) { fb_from_gf(e->x, p.x); fb_from_gf(e->y, p.y); fb_set_dig(e->z, 1); e->coord = BASIC; }
 	else { gf2 l = gf_from_u64(lam); fb_from_gf(e->x, gf_mul(p.x, l)); fb_from_gf(e->y, gf_mul(p.y, gf_sqr(l))); fb_from_gf(e->z, l); e->coord = PROJC; }
 }
@@ -231,7 +231,7 @@ static void do_ebmisc(vf_case *c) {
 	eb_inject(p, P, 0, 1);
 	/* halving is defined on the odd-order subgroup: [r]P = infinity */
 	bpt T = bpt_mul(P, RN);
-	if (T.inf) { VF_TRY(th, eb_hlv(r, p)); transitions++; if (th) vf_fail(NULL, "eb_hlv raised %d", th); else { bpt H; int ok = eb_extract(&H, r); if (!ok) vf_fail(NULL, "eb_hlv: unreduced coordinate"); else if (!bpt_on_curve(H)) vf_fail(NULL, "eb_hlv: result not on the curve"); else if (!bpt_eq(bpt_dbl(H), P)) vf_fail(NULL, "eb_hlv: doubling the result does not give the argument"); else if (!bpt_mul(H, RN).inf) vf_fail(NULL, "eb_hlv: result outside the odd-order subgroup"); } }
+	if (T.inf) { VF_TRY(th, eb_hlv(r, p)); transitions++; if (th) vf_fail(NULL, "eb_hlv raised %d", th); else { bpt H; int ok = eb_extract(&H, r); if (!ok) vf_fail(NULL, "eb_hlv: unreduced coordinate"); else if (!bpt_on_curve(H)) vf_fail(NULL, "eb_hlv: result not on the curve"); else if (!bpt_eq(bpt_dbl(H), P)) vf_fail(NULL, "eb_hlv: doubling the result does not give the argument"); else if (mpz_cmp_ui(RH, 2) == 0 && !bpt_mul(H, RN).inf) vf_fail(NULL, "eb_hlv: result outside the odd-order subgroup (cofactor-2 curve)"); } }
 	if (is_kbltz) { VF_TRY(th, eb_frb(r, p)); if (th) vf_fail(NULL, "eb_frb raised"); else { bpt F; F.inf = 0; F.x = gf_sqr(P.x); F.y = gf_sqr(P.y); expect_bpt("eb_frb", r, F, 0, NULL); }
 		eb_inject(p, P, 1, 3); VF_TRY(th, eb_frb(r, p)); if (!th) { bpt F; F.inf = 0; F.x = gf_sqr(P.x); F.y = gf_sqr(P.y); expect_bpt("eb_frb[projective]", r, F, 0, NULL); } }
 }
@@ -250,14 +250,18 @@ static void do_ebmul(vf_case *c) {
 		if (rp && P.inf) continue;
 		eb_inject(p, P, rp, 3); memset(r, 0x5A, sizeof(eb_st)); r->coord = BASIC; vf_reseed();
 		VF_TRY(th, MUL[i].f(r, p, k)); char w[64]; snprintf(w, sizeof w, "%s[rep %d]", MUL[i].n, rp);
-		if (th) { vf_fail(NULL, "%s raised %d", w, th); continue; } expect_bpt(w, r, E, 1, NULL);
+		const char *kf = NULL; int unreduced = mpz_cmpabs(c->v[3], RN) >= 0;
+		if (rp && (i == 1 || i == 3 || i == 4)) kf = "L29-eb-mul-projective-input";
+		else if (unreduced && i >= 1) kf = "L14-eb-unreduced-scalar";
+		if (th) { vf_fail(kf, "%s raised %d", w, th); continue; } expect_bpt(w, r, E, 1, kf);
 	}
 	if (mpz_sgn(c->v[3]) >= 0 && mpz_sizeinbase(c->v[3], 2) <= (size_t)VF_DIGB) { dig_t d = 0; mpz_export(&d, NULL, -1, sizeof(dig_t), 0, 0, c->v[3]); eb_inject(p, P, 0, 1); VF_TRY(th, eb_mul_dig(r, p, d)); if (th) vf_fail(NULL, "eb_mul_dig raised %d", th); else expect_bpt("eb_mul_dig", r, E, 1, NULL); }
 	if (bpt_eq(P, RG)) { vf_reseed(); VF_TRY(th, eb_mul_gen(r, k)); if (th) vf_fail(NULL, "eb_mul_gen raised %d", th); else expect_bpt("eb_mul_gen", r, E, 1, NULL); }
 	if (!P.inf) {
 		if (!tab_init) { tab_init = 1; for (int i = 0; i < 4; i++) for (int j = 0; j < RLC_EB_TABLE_MAX; j++) eb_new(TAB[i][j]); }
 		if (tab_cid != cur_cid || !gf_eq(tab_x, P.x)) { eb_inject(p, P, 0, 1); for (int i = 0; i < 4; i++) { VF_TRY(th, FIX[i].pre(TAB[i], p)); tab_ok[i] = !th; } tab_cid = cur_cid; tab_x = P.x; }
-		for (int i = 0; i < 4; i++) { if (!tab_ok[i]) { vf_fail(NULL, "%s: precomputation raised", FIX[i].n); continue; } VF_TRY(th, FIX[i].fix(r, (const eb_t *)TAB[i], k)); if (th) vf_fail(NULL, "%s raised %d", FIX[i].n, th); else expect_bpt(FIX[i].n, r, E, 1, NULL); }
+		for (int i = 0; i < 4; i++) { if (!tab_ok[i]) { vf_fail(NULL, "%s: precomputation raised", FIX[i].n); continue; } const char *kf = (i == 3 && mpz_cmpabs(c->v[3], RN) >= 0) ? "L14-eb-unreduced-scalar" : NULL;
+			VF_TRY(th, FIX[i].fix(r, (const eb_t *)TAB[i], k)); if (th) vf_fail(kf, "%s raised %d", FIX[i].n, th); else expect_bpt(FIX[i].n, r, E, 1, kf); }
 	}
 }
 typedef void (*esim_fn)(eb_t, const eb_t, const bn_t, const eb_t, const bn_t);
@@ -269,9 +273,10 @@ static void do_ebsim(vf_case *c) { /* cid, xP,yP,k, xQ,yQ,m */
 	size_t lk = mpz_sizeinbase(c->v[3], 2), lm = mpz_sizeinbase(c->v[6], 2);
 	for (int i = 0; i < 4; i++) { eb_inject(p, P, 0, 1); eb_inject(q, Q, 0, 1); memset(r, 0x5A, sizeof(eb_st)); r->coord = BASIC; vf_reseed();
 		VF_TRY(th, SIM[i].f(r, p, k, q, m));
-		const char *kf = (i == 3 && (lk > (size_t)GF_M || lm > (size_t)GF_M)) ? "L14-eb-sim-joint-long-scalar" : NULL;
+		const char *kf = (mpz_cmpabs(c->v[3], RN) >= 0 || mpz_cmpabs(c->v[6], RN) >= 0) ? "L14-eb-unreduced-scalar" : NULL;
+
 		if (th) { vf_fail(kf, "%s raised %d", SIM[i].n, th); continue; } expect_bpt(SIM[i].n, r, E, 1, kf); }
-	if (bpt_eq(P, RG)) { eb_inject(q, Q, 0, 1); vf_reseed(); VF_TRY(th, eb_mul_sim_gen(r, k, q, m)); if (th) vf_fail(NULL, "eb_mul_sim_gen raised %d", th); else expect_bpt("eb_mul_sim_gen", r, E, 1, NULL); }
+	if (bpt_eq(P, RG)) { const char *kf = (mpz_cmpabs(c->v[3], RN) >= 0 || mpz_cmpabs(c->v[6], RN) >= 0) ? "L14-eb-unreduced-scalar" : NULL; eb_inject(q, Q, 0, 1); vf_reseed(); VF_TRY(th, eb_mul_sim_gen(r, k, q, m)); if (th) vf_fail(kf, "eb_mul_sim_gen raised %d", th); else expect_bpt("eb_mul_sim_gen", r, E, 1, kf); }
 }
 
 static void run_case(vf_case *c) {
@@ -338,15 +343,17 @@ static void enumerate(void) {
 		vf_dom S; vf_dom_init(&S); scalar_alphabet(&S);
 		/* point list: identity, the point of order two (0, sqrt b), generator multiples, and cofactor-full points */
 		bpt pts[700]; int npt = 0; pts[npt++] = bpt_inf(); { bpt t2; t2.inf = 0; t2.x = gf_zero(); t2.y = gf_sqrt(EB_B); pts[npt++] = t2; }
-		int NP = tiny ? (vf_tier ? 400 : 120) : 8;
+		int NP = tiny ? (vf_tier ? 400 : 60) : 8;
 		bpt acc = RG; for (int i = 0; i < NP; i++) { pts[npt++] = acc; if (i % 9 == 0) pts[npt++] = bpt_neg(acc); if (i % 13 == 0) pts[npt++] = bpt_add(acc, pts[1]); acc = bpt_add(acc, i % 2 ? RG : bpt_dbl(RG)); }
 		for (int i = 0; i < npt && !vf_expired(); i++) if (vf_mine()) { for (int j = 0; j < npt; j++) { K.op = "eblaw"; K.n = 5; mpz_set_si(K.v[0], cid); setb(1, pts[i]); setb(3, pts[j]); vf_run(&K); } K.op = "ebmisc"; K.n = 3; mpz_set_si(K.v[0], cid); setb(1, pts[i]); vf_run(&K); }
-		if (tiny) { long n = mpz_get_si(RN); long st = vf_tier ? 1 : 2;
+		if (tiny) { long n = mpz_get_si(RN); long st = vf_tier ? 1 : 3;
 			for (long k = -2 * n - 3; k <= 2 * n + 3 && !vf_expired(); k += st) if (vf_mine()) { K.op = "ebmul"; K.n = 4; mpz_set_si(K.v[0], cid); setb(1, RG); mpz_set_si(K.v[3], k); vf_run(&K); }
 			bpt Q = bpt_mul(RG, S.v[S.n > 7 ? 7 : 0]); mpz_set_si(a, 7); Q = bpt_mul(RG, a);
 			for (long k = -n - 2; k <= n + 2 && !vf_expired(); k += (vf_tier ? 3 : 11)) if (vf_mine()) for (int j = 0; j < S.n; j++) { K.op = "ebsim"; K.n = 7; mpz_set_si(K.v[0], cid); setb(1, RG); mpz_set_si(K.v[3], k); setb(4, Q); mpz_set(K.v[6], S.v[j]); vf_run(&K); }
 		}
-		for (int j = 0; j < S.n; j++) if (vf_mine()) { K.op = "ebmul"; K.n = 4; mpz_set_si(K.v[0], cid); setb(1, RG); mpz_set(K.v[3], S.v[j]); vf_run(&K); setb(1, pts[4]); vf_run(&K); setb(1, pts[0]); vf_run(&K); }
+		/* base points of the scalar multiplications are points of the order-r subgroup (and the identity): [k]P for P outside it is not what the routines promise */
+		{ mpz_set_si(a, 5); bpt P5 = bpt_mul(RG, a);
+		for (int j = 0; j < S.n; j++) if (vf_mine()) { K.op = "ebmul"; K.n = 4; mpz_set_si(K.v[0], cid); setb(1, RG); mpz_set(K.v[3], S.v[j]); vf_run(&K); setb(1, P5); vf_run(&K); setb(1, pts[0]); vf_run(&K); } }
 		{ long rel[] = {7, 1, -1, 2, -2}; for (unsigned ri = 0; ri < 5; ri++) { mpz_set_si(a, rel[ri]); bpt Q = bpt_mul(RG, a); for (int i = 0; i < S.n && !vf_expired(); i += (tiny ? 1 : 2)) for (int j = i % 3; j < S.n; j += 3) if (vf_mine()) { K.op = "ebsim"; K.n = 7; mpz_set_si(K.v[0], cid); setb(1, RG); mpz_set(K.v[3], S.v[i]); setb(4, Q); mpz_set(K.v[6], S.v[j]); vf_run(&K); } } }
 		vf_dom_clear(&S);
 		vf_bound_done(bn);
